@@ -26,8 +26,11 @@ VARIABLES src,      \* the AST the description was generated from ([kind |-> "no
           d,        \* the description tree
           st,       \* "desc" | "accepted" | "linked" | "returned" | "rejected" | "bind"
           n,        \* mutations applied so far
-          lab       \* their classes
-vars == <<src, tgt, d, st, n, lab>>
+          lab,      \* their classes
+          pp        \* the node picked for the next mutation (NoPick: none).  Picking is a step of its own only
+                    \* so that TLC spreads the mutants of one description over its workers.
+vars == <<src, tgt, d, st, n, lab, pp>>
+NoPick == <<Nil>>
 
 (* ------------------------------------------------------------------------ *)
 (* the C09 universe                                                         *)
@@ -212,9 +215,9 @@ MutsAt(x, p, pool) ==
        \cup (IF par.k = "map" THEN {Mu("rename", p, a) : a \in FreshKeys \ Sels(par)} ELSE {})
        \cup {Mu("retype", p, a) : a \in RetypeAtoms \ {c}}
        \cup (IF c.k = "str" THEN {Mu("repoint", p, S(s)) : s \in pool \ {c.v}} ELSE {})
-Muts(x) ==
-    LET pool == Strs(x) \cup {"nowhere"} IN
-    {Mu("retype", <<>>, a) : a \in RetypeAtoms \ {x}} \cup UNION {MutsAt(x, p, pool) : p \in Paths(x)}
+MutsOn(x, p) ==
+    IF p = <<>> THEN {Mu("retype", <<>>, a) : a \in RetypeAtoms \ {x}}
+    ELSE MutsAt(x, p, Strs(x) \cup {"nowhere"})
 
 LocalEdit(x, sel, mu) ==
     IF x.k = "map"
@@ -253,7 +256,7 @@ BaseSmall == TScope("A", {KO("A", TObject("A", {P("p", TRef("A", "", None)), [P(
                                            FALSE, "map"))})
 BaseTiny  == TScope("A", {KO("A", TObject("A", {P("p", TStr0)}, FALSE, "map"))})
 BaseFloat == Scope1(P("p", TFloat(Some(-3), Some(9), None)), BFor(TInt0), "map", FALSE)
-BaseSchema  == TSchema({KV("s1", Step("s1", BaseSmall, {KV("ok", Out(BaseSmall, Some(Dn), FALSE))},
+BaseSchema  == TSchema({KV("s1", Step("s1", BaseSmall, {KV("ok", Out(BaseOne, Some(Dn), FALSE))},
                                       {KV("h", Sig("h", BaseSmall, None))}, {KV("e", Sig("e", BaseTiny, None))}, None))})
 BaseSchemaS == TSchema({KV("s1", Step("s1", BaseTiny, {KV("ok", Out(BaseSmall, None, TRUE))}, {}, {}, Some(Dn)))})
 Bases == IF Tier = "quick" THEN {BaseRich, BaseOne, BaseSmall, BaseSchema}
@@ -275,7 +278,7 @@ NoSrc == [kind |-> "none"]
 (* state machine                                                            *)
 (* ------------------------------------------------------------------------ *)
 Init ==
-    /\ n = 0 /\ lab = <<>>
+    /\ n = 0 /\ lab = <<>> /\ pp = NoPick
     /\ \/ /\ st = "bind" /\ src = NoSrc /\ tgt = "scope" /\ d = Nil
        \/ /\ st = "desc" /\ Mode = "c09"
           /\ src \in Universe
@@ -284,34 +287,38 @@ Init ==
           /\ \/ src \in Bases /\ tgt = Target(src) /\ d = Describe(src)
              \/ src = NoSrc /\ tgt \in {"scope", "schema"} /\ d \in GFTrees
 
+Pick ==
+    /\ st = "desc" /\ n < MaxMut /\ pp = NoPick
+    /\ pp' \in {<<>>} \cup Paths(d)
+    /\ UNCHANGED <<src, tgt, d, st, n, lab>>
 Mutate ==
-    /\ st = "desc" /\ n < MaxMut
-    /\ \E mu \in Muts(d) :
+    /\ st = "desc" /\ pp # NoPick
+    /\ \E mu \in MutsOn(d, pp) :
           /\ d' = Apply(d, mu)
           /\ lab' = Append(lab, mu.op)
-    /\ n' = n + 1
+    /\ n' = n + 1 /\ pp' = NoPick
     /\ UNCHANGED <<src, tgt, st>>
 \* the three steps the code separates: meta-schema acceptance, linking, first use
 Accept ==
-    /\ st = "desc"
+    /\ st = "desc" /\ pp = NoPick
     /\ st' = IF MetaAccepts(tgt, d) THEN "accepted" ELSE "rejected"
-    /\ UNCHANGED <<src, tgt, d, n, lab>>
+    /\ UNCHANGED <<src, tgt, d, n, lab, pp>>
 Link ==
     /\ st = "accepted"
     /\ st' = IF LinkCauseTop(Rebuild(tgt, d)) = "ok" THEN "linked" ELSE "rejected"
-    /\ UNCHANGED <<src, tgt, d, n, lab>>
+    /\ UNCHANGED <<src, tgt, d, n, lab, pp>>
 Use ==
     /\ st = "linked"
     /\ st' = IF UseCauseTop(Rebuild(tgt, d)) = "ok" THEN "returned" ELSE "rejected"
-    /\ UNCHANGED <<src, tgt, d, n, lab>>
-Next == Mutate \/ Accept \/ Link \/ Use
+    /\ UNCHANGED <<src, tgt, d, n, lab, pp>>
+Next == Pick \/ Mutate \/ Accept \/ Link \/ Use
 Spec == Init /\ [][Next]_vars
-View == <<src, tgt, d, st>>
+View == <<src, tgt, d, st, pp>>
 
 (* ------------------------------------------------------------------------ *)
 (* properties                                                               *)
 (* ------------------------------------------------------------------------ *)
-IsCase == st = "desc"
+IsCase == st = "desc" /\ pp = NoPick
 \* C09 on the model
 Describable0   == (IsCase /\ Mode = "c09") => Describable(src)
 FixedPoint0    == (IsCase /\ Mode = "c09") => FixedPoint(src)
@@ -322,11 +329,13 @@ MinimalSame    == (IsCase /\ Mode = "c09") =>
 \* C10 on the model: a description that made it through the three steps is fully usable (declarative
 \* reading), and one that did not is turned down with an error at one of them
 AcceptedImpliesUsable ==
-    /\ st = "returned" => Usable(Rebuild(tgt, d))
-    /\ st \in {"linked", "returned"} => Classify(tgt, d).stage \in {"first_use", "usable"}
-    /\ (st = "rejected" => Classify(tgt, d).stage # "usable")
-    /\ (st = "accepted" => MetaAccepts(tgt, d))
-    /\ (IsCase /\ Classify(tgt, d).stage = "usable") => Usable(Rebuild(tgt, d))
+    LET c == Classify(tgt, d) IN
+    CASE pp # NoPick -> TRUE
+      [] st = "returned" -> c.stage = "usable" /\ Usable(Rebuild(tgt, d))
+      [] st = "linked"   -> c.stage \in {"first_use", "usable"}
+      [] st = "accepted" -> c.stage # "accept"
+      [] st = "rejected" -> c.stage # "usable"
+      [] OTHER -> TRUE
 \* the base descriptions are valid ones
 BasesValid == (IsCase /\ n = 0 /\ src # NoSrc) => Classify(tgt, d).stage = "usable"
 
@@ -360,11 +369,13 @@ Export ==
     CASE st = "bind" -> Emit([mode |-> "bind", toks |-> {TokAttr(s) : s \in AllToks},
                               xf_sample |-> J(XfSample), xf |-> [x \in Transports |-> J(Xf(x, XfSample))],
                               int_bounds_nonneg |-> IntBoundsNonNeg, enum_keys |-> EnumKeys])
+      [] pp # NoPick -> Emit([mode |-> "pick"])
       [] st = "desc" /\ Mode = "c09" ->
             Emit([mode |-> "c09", target |-> tgt, ast |-> src, desc |-> J(d), minimal |-> J(MinimalTop(tgt, d)),
                   usable |-> Usable(src)])
       [] st = "desc" /\ Mode = "c10" ->
+            LET c == Classify(tgt, d) IN
             Emit([mode |-> "c10", target |-> tgt, desc |-> J(d), labels |-> lab, grammar_free |-> (src = NoSrc),
-                  accepts |-> MetaAccepts(tgt, d), stage |-> Classify(tgt, d).stage, cause |-> Classify(tgt, d).cause])
+                  accepts |-> (c.stage # "accept"), stage |-> c.stage, cause |-> c.cause])
       [] OTHER -> TRUE
 =============================================================================
